@@ -500,7 +500,8 @@ class SArr:
         if k is Ellipsis:
             return self
         if isinstance(k, slice):
-            return SArr(self.items[self._norm_slice(k, len(self.items))], self.dtype)
+            n = len(self.items)
+            return SView(self, list(range(n))[self._norm_slice(k, n)])
         if hasattr(k, "__sarr__"):
             k = k.__sarr__()
         if isinstance(k, _np.ndarray):
@@ -615,15 +616,19 @@ class SArr:
                     raise ValueError(f"could not broadcast input array from shape ({len(vals)},) into shape ({len(idx)},)")
             else:
                 vals = [v] * len(idx)
+            its = list(self._items)
             for i, x in zip(idx, vals):
-                self._items[i] = x
+                its[i] = x
+            self._items = its
             return
         if isinstance(k, (SArr, _np.ndarray, list)):
             ks, _ = _tolist(k)
             vals = _tolist(v)[0] if isinstance(v, (SArr, _np.ndarray, list)) else [v] * len(ks)
             if _b_all(not is_sym(i) for i in ks):
+                its = list(self._items)
                 for i, x in zip(ks, vals):
-                    self._items[i] = x
+                    its[i] = x
+                self._items = its
                 return
             n = len(self._items)
             for i, x in zip(ks, vals):
@@ -636,7 +641,9 @@ class SArr:
             kk = ite(k < 0, k + n, k)
             self._items = [ite(_mk_eq(kk, j), v, a) for j, a in enumerate(self._items)]
             return
-        self._items[k] = v
+        its = list(self._items)
+        its[k] = v
+        self._items = its
 
     def _setitem2(self, k, v):
         r, c = self.shape
@@ -664,9 +671,11 @@ class SArr:
             else:
                 raise ValueError("shape mismatch in 2-d assignment")
         it = iter(vals)
+        its = list(self._items)
         for i in ri:
             for j in ci:
-                self._items[i * c + j] = next(it)
+                its[i * c + j] = next(it)
+        self._items = its
 
 
 def _scalar(x, dt):
@@ -700,7 +709,7 @@ def _truthy(x):
 
 def _abs1(x):
     if isinstance(x, (SInt, SReal)):
-        return abs(x)
+        return x.__abs__()
     return _b_abs(x)
 
 
@@ -731,6 +740,31 @@ def _sel(items, idx):
     for k in range(len(items) - 2, -1, -1):
         acc = ite(idx == k, items[k], acc)
     return acc
+
+
+class SView(SArr):
+    """a[lo:hi]: a view, as in numpy - writes through to the array it was sliced from"""
+
+    def __init__(self, base, idx):
+        self._base = base
+        self._idx = idx
+        self.dtype = base.dtype
+        self._shape = None
+
+    @property
+    def _items(self):
+        b = self._base._items
+        return [b[i] for i in self._idx]
+
+    @_items.setter
+    def _items(self, v):
+        v = list(v)
+        if len(v) != len(self._idx):
+            raise ValueError("cannot resize a view")
+        b = list(self._base._items)
+        for i, x in zip(self._idx, v):
+            b[i] = x
+        self._base._items = b
 
 
 class MaskedSel(SArr):
